@@ -9,15 +9,15 @@ namespace Sampling
 section patched
 variable {α : Type} [Field α] [LinearOrder α] [IsStrictOrderedRing α]
 
-theorem susIdx_ok_iff (p : List α) (k : Nat) (sigma : List Nat) (o : α) (sel : List Nat) :
-    susIdx p k sigma o = .ok sel ↔
+theorem susIdxCore_ok_iff (p : List α) (k : Nat) (sigma : List Nat) (o : α) (sel : List Nat) :
+    susIdxCore p k sigma o = .ok sel ↔
       (isPerm sigma p.length = true ∧ nonIncreasing (sigma.map (fun i => p.getD i 0)) = true ∧ k ≠ 0 ∧
       (0 ≤ o ∧ o < Np.sum p / (k : α)) ∧
       walkG (ptrCmp (decide (o + o < Np.sum p / (k : α))))
         ((Np.cumsum (sigma.map (fun i => p.getD i 0))).zip sigma)
         ((p.filter (fun x => decide (0 < x) || decide (x < 0))).length - 1)
         ((List.range k).map (fun (j : Nat) => o + (j : α) * (Np.sum p / (k : α)))) = some sel) := by
-  unfold susIdx
+  unfold susIdxCore
   split_ifs with h1 h2 h3 h4
   · constructor
     · intro h; cases h
@@ -96,9 +96,9 @@ def SusRun (p : List α) (k : Nat) (sigma : List Nat) (o : α) (lo : Bool) (sel 
     ((p.filter (fun x => decide (0 < x) || decide (x < 0))).length - 1)
     ((List.range k).map (fun (j : Nat) => o + (j : α) * (Np.sum p / (k : α)))) = some sel
 
-theorem susIdx_run (p : List α) (k : Nat) (sigma : List Nat) (o : α) (sel : List Nat) :
-    susIdx p k sigma o = .ok sel ↔ SusRun p k sigma o (decide (o + o < Np.sum p / (k : α))) sel :=
-  susIdx_ok_iff p k sigma o sel
+theorem susIdxCore_run (p : List α) (k : Nat) (sigma : List Nat) (o : α) (sel : List Nat) :
+    susIdxCore p k sigma o = .ok sel ↔ SusRun p k sigma o (decide (o + o < Np.sum p / (k : α))) sel :=
+  susIdxCore_ok_iff p k sigma o sel
 
 /-- closed form of a run, either convention: pointer `j` selects `sigma[posC cmp 0 w (o + j·d)]` -/
 theorem run_closed (p : List α) (k : Nat) (sigma : List Nat) (o : α) (lo : Bool) (sel : List Nat)
@@ -153,14 +153,14 @@ theorem run_closed (p : List α) (k : Nat) (sigma : List Nat) (o : α) (lo : Boo
     omega
 
 /-- closed form of the model: pointer `j` selects `sigma[posC cmp 0 w (o + j·d)]` -/
-theorem susIdx_closed (p : List α) (k : Nat) (sigma : List Nat) (o : α) (sel : List Nat)
-    (hp : ∀ x ∈ p, 0 ≤ x) (hT : 0 < Np.sum p) (h : susIdx p k sigma o = .ok sel) :
+theorem susIdxCore_closed (p : List α) (k : Nat) (sigma : List Nat) (o : α) (sel : List Nat)
+    (hp : ∀ x ∈ p, 0 ≤ x) (hT : 0 < Np.sum p) (h : susIdxCore p k sigma o = .ok sel) :
     let cmp := ptrCmp (α := α) (decide (o + o < Np.sum p / (k : α)))
     let w := sigma.map (fun i => p.getD i 0)
     sel = ((List.range k).map (fun j : Nat => posC cmp 0 w (o + (j : α) * (Np.sum p / (k : α))))).map
             (fun q => sigma[q]?.getD 0)
     ∧ ∀ j < k, posC cmp 0 w (o + (j : α) * (Np.sum p / (k : α))) < sigma.length :=
-  run_closed p k sigma o _ sel hp hT ((susIdx_run p k sigma o sel).mp h)
+  run_closed p k sigma o _ sel hp hT ((susIdxCore_run p k sigma o sel).mp h)
 
 end patched
 
@@ -245,12 +245,12 @@ theorem run_floor_ceil_pos (p : List α) (k : Nat) (sigma : List Nat) (o : α) (
     exact floor_diff _ _
 
 /-- **the function meets the floor / ceiling guarantee for every offset in `[0, ptr_dist)`** -/
-theorem susIdx_floor_ceil_pos (p : List α) (k : Nat) (sigma : List Nat) (o : α) (sel : List Nat)
-    (hp : ∀ x ∈ p, 0 ≤ x) (hT : 0 < Np.sum p) (h : susIdx p k sigma o = .ok sel)
+theorem susIdxCore_floor_ceil_pos (p : List α) (k : Nat) (sigma : List Nat) (o : α) (sel : List Nat)
+    (hp : ∀ x ∈ p, 0 ≤ x) (hT : 0 < Np.sum p) (h : susIdxCore p k sigma o = .ok sel)
     (r : Nat) (hr : r < sigma.length) :
     (sel.count sigma[r] : ℤ) = ⌊(k : α) * p.getD sigma[r] 0 / Np.sum p⌋ ∨
     (sel.count sigma[r] : ℤ) = ⌈(k : α) * p.getD sigma[r] 0 / Np.sum p⌉ := by
-  have hrun := (susIdx_run p k sigma o sel).mp h
+  have hrun := (susIdxCore_run p k sigma o sel).mp h
   refine run_floor_ceil_pos p k sigma o _ sel hp hT hrun ?_ r hr
   intro hlo
   obtain ⟨_, _, hk, ⟨ho, _⟩, _⟩ := hrun
@@ -267,11 +267,11 @@ section patchedDefined
 variable {α : Type} [Field α] [LinearOrder α] [IsStrictOrderedRing α]
 
 /-- the model returns exactly `k` indices and never fails on valid inputs -/
-theorem susIdx_defined (p : List α) (k : Nat) (sigma : List Nat) (o : α)
+theorem susIdxCore_defined (p : List α) (k : Nat) (sigma : List Nat) (o : α)
     (hp : ∀ x ∈ p, 0 ≤ x) (hT : 0 < Np.sum p) (hk : 0 < k)
     (h1 : isPerm sigma p.length = true) (h2 : nonIncreasing (sigma.map (fun i => p.getD i 0)) = true)
     (ho : 0 ≤ o) (hod : o < Np.sum p / (k : α)) :
-    ∃ sel, susIdx p k sigma o = .ok sel ∧ sel.length = k := by
+    ∃ sel, susIdxCore p k sigma o = .ok sel ∧ sel.length = k := by
   have hd : 0 < Np.sum p / (k : α) := div_pos hT (by exact_mod_cast hk)
   obtain ⟨hlast, htot, _⟩ := guard_total p sigma hp hT h1 h2
   set w := sigma.map (fun i => p.getD i 0) with hw
@@ -299,7 +299,7 @@ theorem susIdx_defined (p : List α) (k : Nat) (sigma : List Nat) (o : α)
         obtain ⟨j, hj, rfl⟩ := List.mem_map.mp ht
         rw [hsget]
         exact hstopT _ (sus_ptr_lt (Np.sum p) o k hT hod j (List.mem_range.mp hj)))
-  refine ⟨_, (susIdx_ok_iff p k sigma o _).mpr ⟨h1, h2, by omega, ⟨ho, hod⟩, hwalk⟩, by simp⟩
+  refine ⟨_, (susIdxCore_ok_iff p k sigma o _).mpr ⟨h1, h2, by omega, ⟨ho, hod⟩, hwalk⟩, by simp⟩
 
 end patchedDefined
 end Sampling
